@@ -165,7 +165,96 @@ def h_reglan(rp):
     return out
 
 
-HANDLERS = [("regex[", h_reglan),
+NOMATCH_POOL = ["a-b c", "a  b", "hello   world", "a #x b", "x,y;z", "well-known fact #tag_1", "foo \u2013 bar",
+                "#_todo buy milk", "(call) mum", "one #a two #b-c three"]
+
+
+def h_ctparse(rp):
+    """ctparse(): the real function with ctparse_gen replaced by a recording stub that yields the
+    model's stream"""
+    import importlib
+    from datetime import datetime
+    C = importlib.import_module("ctparse.ctparse")
+    P, stream = rp["args"][0], rp["args"][1]
+    clause = rp["clause"]
+    out = {"func": rp["func"], "clause": clause}
+    if clause == "no-match-subject-and-labels-as-on-the-match-path":
+        ts = datetime(2018, 3, 7, 12, 43)
+        diffs = []
+        for t in NOMATCH_POOL:
+            a = C.ctparse(t, ts=ts, timeout=0)
+            b = C.ctparse(t + " tomorrow", ts=ts, timeout=0)
+            if a.resolution is None and b.resolution is not None and (a.subject != b.subject or a.labels != b.labels):
+                diffs.append({"text": t, "no_match": [a.subject, a.labels], "with_time_expression": [b.subject, b.labels]})
+        out["differences"] = diffs[:5]
+        out["confirmed"] = bool(diffs)
+        return out
+
+    def real(v):
+        if v is None:
+            return None
+        if isinstance(v, dict) and v.get("kind") == "CTParse":
+            a = v["attrs"]
+            return C.CTParse("res:" + v.get("label", ""), ("r",), a.get("score"), "subj", ["l"])
+        return v
+    objs = [real(x) for x in (stream or [])]
+    seen = {}
+
+    def fake_gen(*a, **k):
+        seen["args"], seen["kwargs"] = a, k
+        return iter(objs)
+    ts = None if P.get("ts") is None else datetime(2020, 2, 29, 23, 59, 59)
+    scorer = None if P.get("scorer") is None else object()
+    kw = dict(timeout=P.get("timeout"), relative_match_len=P.get("relative_match_len"),
+              max_stack_depth=P.get("max_stack_depth"), scorer=scorer, latent_time=P.get("latent_time"))
+    debug = ",debug" in rp["func"]
+    orig = C.ctparse_gen
+    C.ctparse_gen = fake_gen
+    try:
+        try:
+            res = C.ctparse("some text", ts, debug=debug, **kw)
+            exc = None
+        except Exception as e:
+            res, exc = None, e
+            out["real_exception"] = "%s: %s" % (type(e).__name__, e)
+    finally:
+        C.ctparse_gen = orig
+    out["real_result"] = repr(res)[:300]
+    if clause == "no-exceptional-exit":
+        out["confirmed"] = exc is not None
+        return out
+    if exc is not None:
+        out["confirmed"] = False
+        return out
+    if clause == "arguments-forwarded-to-the-stream":
+        import inspect
+        b = inspect.signature(orig).bind(*seen.get("args", ()), **seen.get("kwargs", {}))
+        b.apply_defaults()
+        want = dict(kw, txt="some text", ts=ts)
+        bad = {k: [repr(b.arguments.get(k)), repr(v)] for k, v in want.items() if not (b.arguments.get(k) is v or b.arguments.get(k) == v)}
+        out["not_forwarded"] = bad
+        out["confirmed"] = bool(bad)
+        return out
+    if clause == "result-is-a-stream-element":
+        out["confirmed"] = not any(res is o for o in objs)
+        return out
+    if clause == "result-has-maximal-score":
+        out["confirmed"] = not all(o.score <= res.score for o in objs)
+        return out
+    if clause == "empty-stream-gives-empty-resolution":
+        out["confirmed"] = not (isinstance(res, C.CTParse) and res.resolution is None and res.production is None and res.score is None)
+        return out
+    if clause == "subject-is-str-labels-is-list":
+        out["confirmed"] = not (isinstance(res.subject, str) and isinstance(res.labels, list) and all(isinstance(x, str) for x in res.labels))
+        return out
+    if clause == "debug-returns-the-stream":
+        out["confirmed"] = list(res) != objs
+        return out
+    out["note"] = "no native evaluation for this clause"
+    return out
+
+
+HANDLERS = [("ctparse.ctparse[", h_ctparse), ("regex[", h_reglan),
             ("types.Artifact.__eq__", h_eq), ("corpus.parse_nb_string.nb_str", h_roundtrip),
             ("postprocess_latent.apply_postprocessing_rules", h_postprocess),
             ("types.Time.", h_accessor), ("types.Interval.", h_accessor),
